@@ -8,7 +8,8 @@
 #include "tree.h"
 
 static const char *UNI[T_MAXU] = { "10-a.conf", "9-b.conf", "B.conf", "README", "a.conf", ".h.conf", ".conf", "x.conf.bak" };
-static const char *EPN[4] = { "econf_readFileWithCallback", "econf_readConfigWithCallback", "econf_readDirsWithCallback", "econf_readDirsHistoryWithCallback" };
+static const char *EPN[6] = { "econf_readFileWithCallback", "econf_readConfigWithCallback", "econf_readDirsWithCallback", "econf_readDirsHistoryWithCallback",
+                              "econf_readConfigWithCallback + CONFIG_DIRS option", "econf_readConfigWithCallback, drop-ins only (config name NULL)" };
 static int nu = 3, pairs = 0;
 static char root[300], options[600];
 static char *poison[T_MAXF];
@@ -23,10 +24,16 @@ static void setup(int ep)
   ts.ncd = 1; snprintf(ts.cd[0], sizeof ts.cd[0], ".conf.d");
   ts.nu = ep == 0 ? 0 : nu;
   for (int i = 0; i < ts.nu; i++) ts.uname[i] = UNI[i];
-  if (ep == 1) {
+  if (ep == 1 || ep == 4) {
     ts.nlayers = 3;
     const char *sub[3] = { "/usr/lib", "/run", "/etc" };
     for (int l = 0; l < 3; l++) snprintf(ts.layer_dir[l], sizeof ts.layer_dir[l], "%s%s/proj", root, sub[l]);
+    snprintf(options, sizeof options, ep == 4 ? "ROOT_PREFIX=%s;CONFIG_DIRS=.conf.d" : "ROOT_PREFIX=%s", root);
+  } else if (ep == 5) {
+    ts.nlayers = 3;
+    const char *sub[3] = { "/usr/lib", "/run", "/etc" };
+    for (int l = 0; l < 3; l++) snprintf(ts.layer_dir[l], sizeof ts.layer_dir[l], "%s%s", root, sub[l]);
+    snprintf(ts.name, sizeof ts.name, "proj"); snprintf(ts.cd[0], sizeof ts.cd[0], ".d");
     snprintf(options, sizeof options, "ROOT_PREFIX=%s", root);
   } else if (ep == 0) {
     ts.nlayers = 1; snprintf(ts.layer_dir[0], sizeof ts.layer_dir[0], "%s/single", root);
@@ -43,7 +50,7 @@ static void setup(int ep)
 
 static void gen(void)
 {
-  t_gen_state(&want, mc_tag == 0 ? 2 : 3);
+  t_gen_state(&want, mc_tag == 0 ? 2 : mc_tag == 5 ? 1 : 3);
   int list[T_MAXF];
   int n = t_ref_list(&want, list);
   rej1 = mc_choose(n + 1);
@@ -97,11 +104,11 @@ static void exec(void)
   econf_err rc;
   switch (mc_tag) {
   case 0: rc = econf_readFileWithCallback(&kf, t_path[0], "=", "#", cb, &ctx); break;
-  case 1:
+  case 1: case 4: case 5:
     rc = econf_newKeyFile_with_options(&own, options);
     if (rc != ECONF_SUCCESS) { mc_fail(sig.s, "options rejected: %d", (int)rc); goto out; }
     kf = own;
-    rc = econf_readConfigWithCallback(&kf, "proj", "/usr/lib", "cfg", "conf", "=", "#", cb, &ctx); break;
+    rc = econf_readConfigWithCallback(&kf, "proj", "/usr/lib", mc_tag == 5 ? NULL : "cfg", "conf", "=", "#", cb, &ctx); break;
   case 2: rc = econf_readDirsWithCallback(&kf, ts.layer_dir[0], ts.layer_dir[1], "cfg", "conf", "=", "#", cb, &ctx); break;
   default: rc = econf_readDirsHistoryWithCallback(&hist, &hsize, ts.layer_dir[0], ts.layer_dir[1], "cfg", "conf", "=", "#", cb, &ctx); break;
   }
@@ -199,7 +206,7 @@ int main(int argc, char **argv)
     return mc_replay(gen, exec, mc_opt.case_id);
   }
   int complete = 1;
-  for (int ep = 0; ep < 4 && complete; ep++) { mc_tag = ep; setup(ep); complete = mc_explore(gen, exec, 0, 0); }
+  for (int ep = 0; ep < 6 && complete; ep++) { mc_tag = ep; setup(ep); complete = mc_explore(gen, exec, 0, 0); }
   if (complete) mc_st->bound_completed = nu;
   mc_finish();
   return 0;
